@@ -116,6 +116,9 @@ def regen():
             raise BuildError("translator %s failed:\n%s" % (sub, p.stdout[-3000:]))
         if write_if_changed(os.path.join(COQ, "Gen", fn), p.stdout):
             changed.append(fn)
+    import instrs
+    if write_if_changed(os.path.join(COQ, "Gen", "AsmGen.v"), instrs.gen_asm_v()):
+        changed.append("AsmGen.v")
     return changed
 
 
@@ -434,6 +437,6 @@ TRUSTED_BASE = [
     "Coq 8.16.1 kernel (coqc), vm_compute; no native_compute",
     "axioms: none (every Print Assumptions under Props/ must say 'Closed under the global context')",
     "translator: harness `mvh dump-*` printing coq/Gen/*.v from /repo through its public Rust API",
-    "extraction: ExtrOcamlBasic + ExtrOcamlZBigInt (positive/N/Z -> zarith big_int and their Extract Constant arithmetic), OCaml 4.13.1, zarith 1.12, driver/driver.ml",
+    "extraction: ExtrOcamlBasic + ExtrOcamlZBigInt (positive/N/Z -> zarith big_int and their Extract Constant arithmetic) + ExtrOcamlNativeString (ascii -> char, string -> OCaml string), OCaml 4.13.1, zarith 1.12, driver/driver.ml",
     "correspondence: lib/*.py generators and canonicalisation, harness/src/*.rs entry points, rustc/cargo, feature `internals` of miden-processor",
 ]
